@@ -7,3 +7,8 @@ G = os.path.join(R, "..", "lean", "KonstVerif", "Extracted", "Gen")
 d = {fn: hashlib.sha256(open(os.path.join(G, fn), "rb").read()).hexdigest() for fn in sorted(os.listdir(G)) if fn.endswith(".lean")}
 json.dump(d, open(os.path.join(R, "gen.sha256.json"), "w"), indent=1)
 print(len(d), "files")
+
+# the committed state of the generated definitions, as namespace Extracted0, for the failing-input search
+import subprocess, sys
+subprocess.check_call([sys.executable, os.path.join(R, "gen_search.py"), "freeze"])
+subprocess.check_call([sys.executable, os.path.join(R, "gen_search.py"), "search"])
